@@ -313,6 +313,68 @@ theorem rouwMat_nonneg (p q : K) (hp0 : 0 ≤ p) (hp1 : p ≤ 1) (hq0 : 0 ≤ q)
     rw [rouwMat_get_succ p q m i j hi hj]
     exact rouwStepFn_nonneg (m + 2) p q hp0 hp1 hq0 hq1 _ (fun i j hi hj => ih i j hi hj) i j hi hj
 
+theorem rouwStepFn_pos (k : ℕ) (hk : 1 ≤ k) (p q : K) (hp0 : 0 < p) (hp1 : p < 1) (hq0 : 0 < q) (hq1 : q < 1)
+    (T : ℕ → ℕ → K) (hT : ∀ i j, i < k → j < k → 0 < T i j) (i j : ℕ) (hi : i < k + 1) (hj : j < k + 1) :
+    0 < rouwStepFn k p q T i j := by
+  have hp' : 0 < 1 - p := by linarith
+  have hq' : 0 < 1 - q := by linarith
+  have h1 : 0 ≤ (if i < k ∧ j < k then p * T i j else 0) := by
+    split_ifs with h
+    · exact (mul_pos hp0 (hT i j h.1 h.2)).le
+    · exact le_rfl
+  have h2 : 0 ≤ (if i < k ∧ 1 ≤ j then (1 - p) * T i (j - 1) else 0) := by
+    split_ifs with h
+    · exact (mul_pos hp' (hT i (j - 1) h.1 (by omega))).le
+    · exact le_rfl
+  have h3 : 0 ≤ (if 1 ≤ i ∧ j < k then (1 - q) * T (i - 1) j else 0) := by
+    split_ifs with h
+    · exact (mul_pos hq' (hT (i - 1) j (by omega) h.2)).le
+    · exact le_rfl
+  have h4 : 0 ≤ (if 1 ≤ i ∧ 1 ≤ j then q * T (i - 1) (j - 1) else 0) := by
+    split_ifs with h
+    · exact (mul_pos hq0 (hT (i - 1) (j - 1) (by omega) (by omega))).le
+    · exact le_rfl
+  have hs : 0 < (if i < k ∧ j < k then p * T i j else 0)
+      + (if i < k ∧ 1 ≤ j then (1 - p) * T i (j - 1) else 0)
+      + (if 1 ≤ i ∧ j < k then (1 - q) * T (i - 1) j else 0)
+      + (if 1 ≤ i ∧ 1 ≤ j then q * T (i - 1) (j - 1) else 0) := by
+    by_cases hik : i < k
+    · by_cases hjk : j < k
+      · have : 0 < (if i < k ∧ j < k then p * T i j else 0) := by
+          rw [if_pos ⟨hik, hjk⟩]; exact mul_pos hp0 (hT i j hik hjk)
+        linarith
+      · have hj1 : 1 ≤ j := by omega
+        have : 0 < (if i < k ∧ 1 ≤ j then (1 - p) * T i (j - 1) else 0) := by
+          rw [if_pos ⟨hik, hj1⟩]; exact mul_pos hp' (hT i (j - 1) hik (by omega))
+        linarith
+    · have hi1 : 1 ≤ i := by omega
+      by_cases hjk : j < k
+      · have : 0 < (if 1 ≤ i ∧ j < k then (1 - q) * T (i - 1) j else 0) := by
+          rw [if_pos ⟨hi1, hjk⟩]; exact mul_pos hq' (hT (i - 1) j (by omega) hjk)
+        linarith
+      · have hj1 : 1 ≤ j := by omega
+        have : 0 < (if 1 ≤ i ∧ 1 ≤ j then q * T (i - 1) (j - 1) else 0) := by
+          rw [if_pos ⟨hi1, hj1⟩]; exact mul_pos hq0 (hT (i - 1) (j - 1) (by omega) (by omega))
+        linarith
+  unfold rouwStepFn
+  by_cases hc : 1 ≤ i ∧ i < k
+  · simp only [if_pos hc]
+    exact div_pos hs (by norm_num)
+  · simp only [if_neg hc]
+    exact hs
+
+/-- all entries are strictly positive for `p, q ∈ (0,1)` -/
+theorem rouwMat_pos (p q : K) (hp0 : 0 < p) (hp1 : p < 1) (hq0 : 0 < q) (hq1 : q < 1)
+    (m i j : ℕ) (hi : i < m + 2) (hj : j < m + 2) : 0 < (rouwMat p q m).get i j := by
+  induction m generalizing i j with
+  | zero =>
+    rw [rouwMat_get_zero p q i j hi hj]
+    unfold rouwBaseFn
+    split_ifs <;> linarith
+  | succ m ih =>
+    rw [rouwMat_get_succ p q m i j hi hj]
+    exact rouwStepFn_pos (m + 2) (by omega) p q hp0 hp1 hq0 hq1 _ (fun i j hi hj => ih i j hi hj) i j hi hj
+
 end
 
 end QE.C13
